@@ -1363,8 +1363,10 @@ class Slave(logging_utils.LoggableMixin):
                     await self.api_call(
                         'PATCH',
                         f'/ports/{port.get_remote_id()}/value',
+                        value,
                         timeout=settings.slaves.long_timeout
                     )
+                    port.push_remote_value(value)
                 except Exception as e:
                     self.error('failed to provision %s value: %s', port, e)
 
